@@ -11,7 +11,7 @@
    `_partial` under the narrowest guard excluding them, the full statements stay visible in comments.            *)
 From Coq Require Import List ZArith Bool String.
 From PV Require Import Base.Exn Model.DocstringTyping Model.Docstring Spec.DocstringSpec Gen.Docstring
-  Proofs.DocstringTy Proofs.DocstringEvalLemmas Proofs.DocstringRef Proofs.DocstringMain.
+  Proofs.DocstringTy Proofs.DocstringEvalLemmas Proofs.DocstringRef Proofs.DocstringMain Proofs.DocstringWf.
 Import ListNotations.
 Open Scope string_scope.
 Open Scope list_scope.
@@ -103,8 +103,8 @@ Theorem C19_accepts_iff_consistent_refuted : exists scope req ann doc,
 Proof.
   exists ["Foo"; "NoneType"], true, [("a", TPipe [TCls "Foo"; TCls "NoneType"])],
          (mkdoc RawText [("a", Some (dt "Foo | None" (EOr (EName "Foo") ENone)))] None).
-  split; [reflexivity|]. split; [reflexivity|]. split; [reflexivity|]. split; [|reflexivity].
-  apply consistentb_iff; [apply nodupb_NoDup; reflexivity|reflexivity].
+  split; [vm_compute; reflexivity|]. split; [vm_compute; reflexivity|]. split; [vm_compute; reflexivity|]. split; [|vm_compute; reflexivity].
+  apply consistentb_iff; [apply nodupb_NoDup; vm_compute; reflexivity|vm_compute; reflexivity].
 Qed.
 Print Assumptions C19_accepts_iff_consistent_refuted.
 
@@ -163,8 +163,8 @@ Proof.
   exists ["int"], true, [("a", TCls "int")],
          (mkdoc RawText ([] ++ ("a", Some (dt "int" (EName "int"))) :: []) None),
          (mkdoc RawText ([] ++ ("a", None) :: []) None).
-  split; [reflexivity|]. split; [reflexivity|]. split; [|split; [apply E_untype_param|reflexivity]].
-  apply consistentb_iff; [apply nodupb_NoDup; reflexivity|reflexivity].
+  split; [vm_compute; reflexivity|]. split; [vm_compute; reflexivity|]. split; [|split; [apply E_untype_param|vm_compute; reflexivity]].
+  apply consistentb_iff; [apply nodupb_NoDup; vm_compute; reflexivity|vm_compute; reflexivity].
 Qed.
 Print Assumptions C19_one_edit_rejected_refuted.
 
@@ -192,6 +192,17 @@ Theorem C19_type_equality_is_equivalence :
 Proof. split; [exact ty_eqb_refl|]. split; [exact ty_eqb_sym|exact ty_eqb_trans]. Qed.
 Print Assumptions C19_type_equality_is_equivalence.
 
+(* the hypothesis `evaluable` on the new documented type of an edit (E_change_type, E_alter_returns) covers the whole
+   syntactic vocabulary: every well-formed type expression (names, None, typing and builtin generics with the right number
+   of arguments, Tuple[X, ...], Callable[[...], R], Callable[..., R], Union / Optional / X | Y, at any nesting depth)
+   evaluates to a value or fails with a NameError, whatever the scope *)
+Theorem C19_vocabulary_is_evaluable : forall scope d,
+  forallb name_ok scope = true -> wf_expr (dt_expr d) = true -> evaluable scope d = true.
+Proof.
+  intros scope d H W. apply wf_evaluable; [|assumption]. intros m Hm. rewrite forallb_forall in H. auto.
+Qed.
+Print Assumptions C19_vocabulary_is_evaluable.
+
 (* ---- non-vacuity ---------------------------------------------------------------------------------------------------------- *)
 (* def f(a: Optional[List[Foo]], *args: int, k: Dict[str, Foo] | None) -> Callable[[Foo], int]   with a faithful docstring
    that respells Optional[...] as Union[..., None] *)
@@ -209,13 +220,13 @@ Definition ex_doc : docT := mkdoc RawText [("k", Some ex_k); ("a", Some ex_a); (
 
 Example ex_guards : sig_ok ex_ann = true /\ scope_ok ex_scope ex_ann = true /\ doc_no_typing_dot ex_doc = true /\
   ctx_covers [] ex_ann = true /\ doc_typed ex_doc = true /\ doc_evaluable ex_scope ex_doc = true.
-Proof. repeat split; reflexivity. Qed.
+Proof. repeat split; vm_compute; reflexivity. Qed.
 
 Example ex_consistent : consistent ex_scope ex_ann ex_doc.
-Proof. apply consistentb_iff; [apply nodupb_NoDup; reflexivity|reflexivity]. Qed.
+Proof. apply consistentb_iff; [apply nodupb_NoDup; vm_compute; reflexivity|vm_compute; reflexivity]. Qed.
 
 Example ex_accepted : decorate docstring_prog (fc false ex_ann ex_doc) = Ok tt.
-Proof. reflexivity. Qed.
+Proof. vm_compute. reflexivity. Qed.
 
 (* one edit of every kind is possible on it *)
 Example ex_edit_rename : one_edit ex_scope ex_doc (mkdoc RawText ([("k", Some ex_k)] ++ ("b", Some ex_a) :: [("args", Some ex_args)]) (Some [ex_ret])).
@@ -225,17 +236,17 @@ Proof. apply (E_rename_param ex_scope RawText [("k", Some ex_k)] "a" "b"). discr
 Definition ex_k' : dtype := dt "Optional[Dict[str, int]]" (plug (CSubS (EName "Optional") (CSubS (EName "Dict") (CTupleAt [EName "str"] CHole []))) (EName "int")).
 Example ex_edit_deep : one_edit ex_scope ex_doc (mkdoc RawText ([] ++ ("k", Some ex_k') :: [("a", Some ex_a); ("args", Some ex_args)]) (Some [ex_ret])).
 Proof.
-  apply (E_change_type ex_scope RawText [] "k" ex_k ex_k'); [reflexivity|].
+  apply (E_change_type ex_scope RawText [] "k" ex_k ex_k'); [vm_compute; reflexivity|].
   intros [t [t' [E1 [E2 Q]]]]. vm_compute in E1, E2. inversion E1; inversion E2; subst. discriminate.
 Qed.
 
 Example ex_edit_deep_rejected :
   decorate docstring_prog (fc true ex_ann (mkdoc RawText ([] ++ ("k", Some ex_k') :: [("a", Some ex_a); ("args", Some ex_args)]) (Some [ex_ret])))
   = Raise PDocstringC.
-Proof. reflexivity. Qed.
+Proof. vm_compute. reflexivity. Qed.
 
 Example ex_edit_alter_returns : one_edit ex_scope ex_doc (mkdoc RawText [("k", Some ex_k); ("a", Some ex_a); ("args", Some ex_args)] (Some [ex_args])).
 Proof.
-  apply (E_alter_returns ex_scope RawText _ ex_ret ex_args); [reflexivity|].
+  apply (E_alter_returns ex_scope RawText _ ex_ret ex_args); [vm_compute; reflexivity|].
   intros [t [t' [E1 [E2 Q]]]]. vm_compute in E1, E2. inversion E1; inversion E2; subst. discriminate.
 Qed.
